@@ -20,13 +20,20 @@ class FakeTransport:
     oracle can decide what that means for the property at hand.
     """
 
-    def __init__(self, peer=("192.0.2.7", 50000), ssl_object=None):
+    def __init__(self, peer=("192.0.2.7", 50000), ssl_object=None, high_water=None, protocol=None):
         self.events = []          # ("w", data) | ("c",)
         self.closed = 0
         self.late_writes = 0
         self.peer = peer
         self.ssl_object = ssl_object
         self.aborted = False
+        # optional flow control (asyncio contract): once more than ``high_water`` bytes are buffered the protocol's
+        # pause_writing() is called, and resume_writing() when the reader has caught up -- also while closing, before
+        # connection_lost.  ``drain()`` is the reader catching up.
+        self.high_water = high_water
+        self.protocol = protocol
+        self.buffered = 0
+        self.paused = False
 
     def write(self, data):
         if self.closed:
@@ -34,6 +41,17 @@ class FakeTransport:
             self.events.append(("late", data))
             return
         self.events.append(("w", data))
+        if self.high_water is not None:
+            self.buffered = self.buffered + len(data)
+            if self.buffered > self.high_water and not self.paused:
+                self.paused = True
+                self.protocol.pause_writing()
+
+    def drain(self):
+        self.buffered = 0
+        if self.paused:
+            self.paused = False
+            self.protocol.resume_writing()
 
     def writelines(self, lst):
         for d in lst:
@@ -70,7 +88,7 @@ class FakeTransport:
         pass
 
     def get_write_buffer_size(self):
-        return 0
+        return self.buffered
 
     # ---- views --------------------------------------------------------------------------
     def writes(self):
